@@ -42,6 +42,7 @@ def plan(tier):
         descs.append({"kind": "regen", "type": t})
         descs.append({"kind": "pairs", "type": t, "part": 0, "parts": 2})
         descs.append({"kind": "pairs", "type": t, "part": 1, "parts": 2})
+        descs.append({"kind": "ctor_kw", "type": t})
     per = 200 if tier == "quick" else 3000
     for i in range(5):
         descs.append({"kind": "random", "examples": per})
@@ -333,6 +334,66 @@ def run_exclusive_split(ctx, tname):
                     guarded(ctx, tname, first, then=[[carrier, [[other, True]]], [carrier, [[o.name, True]]]])
 
 
+def run_ctor(ctx, tname, kw, via):
+    """Options given as constructor keywords (directly, or through Project.new_module): which of two conflicting
+    keywords wins is the library's business; what the constructed object reads is what gets packed and read back,
+    exclusive options are not both on, bounded options are within their bounds."""
+    from rv.api import Project
+
+    mt = specmodel.load()[tname]
+    kw = dict(kw)
+    mod = Project().new_module(cls_of(tname), **kw) if via == "new_module" else cls_of(tname)(**kw)
+    state = {}
+    for o in mt.options:
+        got = getattr(mod, o.name)
+        if o.size == 1 and not isinstance(got, bool):
+            raise PropertyViolation("C11.ctor.type", "%s(**%r): %s reads %r" % (tname, kw, o.name, got), key="C11.ctor.type:%s.%s" % (tname, o.name))
+        if o.min is not None and not (o.min <= int(got) <= o.max):
+            raise PropertyViolation("C11.ctor.bounds", "%s(**%r): %s reads %r outside [%r, %r]" % (tname, kw, o.name, got, o.min, o.max), key="C11.ctor.bounds:%s.%s" % (tname, o.name))
+        if o.name in kw and not o.exclusive_of and not any(o.name in x.exclusive_of for x in mt.options) and int(got) != int(norm_assign(o, kw[o.name])):
+            raise PropertyViolation("C11.ctor.readback", "%s(**%r): %s reads %r" % (tname, kw, o.name, got), key="C11.ctor.readback:%s.%s" % (tname, o.name))
+        state[o.name] = got
+    if via == "new_module":
+        mod = mod.clone()
+    run_generation(ctx, tname, mt, mod, state, [], True, ".ctor")
+    return state
+
+
+def run_ctor_shard(ctx, tname):
+    mt = specmodel.load()[tname]
+    n = 0
+    for i1, o1 in enumerate(mt.options):
+        for o2 in mt.options[i1:]:
+            for v1 in pair_values(o1):
+                for v2 in pair_values(o2) if o2 is not o1 else [None]:
+                    for order in (0, 1):
+                        items = [(o1.name, v1)] + ([(o2.name, v2)] if o2 is not o1 else [])
+                        if order:
+                            if len(items) == 1:
+                                continue
+                            items.reverse()
+                        via = "new_module" if (n % 3 == 2) else "ctor"
+                        n += 1
+                        ctx.case()
+                        rec = {"type": tname, "ctor_kw": [list(x) for x in items], "via": via}
+                        try:
+                            run_ctor(ctx, tname, items, via)
+                            ctx.label("constructor_keywords")
+                            if len(items) == 2 and (o2.name in o1.exclusive_of or o1.name in o2.exclusive_of) and v1 and v2:
+                                ctx.label("constructor_keywords_conflicting_exclusive_pair")
+                            ctx.mark_nontrivial(rec)
+                        except PropertyViolation as v:
+                            ctx.check(False, v.sub_oracle, v.detail, key=v.key, recipe=rec)
+                        except Exception as e:  # noqa: BLE001
+                            from vlib.harness import as_violation
+
+                            v = as_violation(e, "C11", "ctor")
+                            if v is None:
+                                raise
+                            ctx.check(False, v.sub_oracle, "%r: %s" % (rec, v.detail), key=v.key + ":" + tname, recipe=rec)
+    ctx.sample({"type": tname, "ctor_keyword_cases": n})
+
+
 def pair_values(o):
     if o.size == 1:
         return [False, True]
@@ -397,6 +458,8 @@ def run_shard(ctx, desc):
         run_exclusive_split(ctx, desc["type"])
     elif k == "pairs":
         run_pairs(ctx, desc["type"], desc["part"], desc["parts"])
+    elif k == "ctor_kw":
+        run_ctor_shard(ctx, desc["type"])
     elif k == "after_fixture":
         run_after_fixture(ctx, desc["files"])
     else:
@@ -418,6 +481,9 @@ def replay(ctx, doc):
     r = doc["recipe"]
     if "case" in r:
         r = r["case"]
+    if "ctor_kw" in r:
+        run_ctor(ctx, r["type"], [tuple(x) for x in r["ctor_kw"]], r["via"])
+        return
     if "seq" in r:
         if r.get("after_fixture"):
             load_fixture(r["after_fixture"])
